@@ -84,6 +84,7 @@ def h_roundtrip(c):
 def h_parse(c, L):
     """positional value for symbolic strings over [0-9a-fA-F] of length L (leading zeros, mixed case)."""
     hx = _install(c)
+    c.str_iter_concrete = 2 if L <= 2 else 0
     ch = []
     for i in range(L):
         x = c.int("ch%d" % i, 48, 102)
